@@ -363,6 +363,13 @@ func binop(op token.Token, t types.Type, x, y value) value {
 	if isSym(x) || isSym(y) {
 		return symBinop(op, t, x, y)
 	}
+	if (op == token.EQL || op == token.NEQ) && comparableAggregate(x) && comparableAggregate(y) && (hasSymDeep(x, 4) || hasSymDeep(y, 4)) {
+		eq := valEqTerm(x, y)
+		if op == token.NEQ {
+			eq = tNot(eq)
+		}
+		return mkSym(types.Bool, eq)
+	}
 	switch op {
 	case token.ADD:
 		switch x.(type) {
@@ -1161,6 +1168,8 @@ func rangeIter(x value, t types.Type) iter {
 		return &hashmapIter{iter: reflect.ValueOf(x.entries()).MapRange()}
 	case string:
 		return &stringIter{Reader: strings.NewReader(x)}
+	case symstr:
+		return &symstrIter{s: x}
 	}
 	panic(fmt.Sprintf("cannot range over %T", x))
 }
@@ -1559,4 +1568,16 @@ func fandbits[F floaty](x, y F) F {
 		*(*uint64)(unsafe.Pointer(&x)) &= *(*uint64)(unsafe.Pointer(&y))
 	}
 	return x
+}
+
+// comparableAggregate reports whether v is a struct, array or non-nil interface value
+// (the composite kinds Go's == is defined on structurally).
+func comparableAggregate(v value) bool {
+	switch v := v.(type) {
+	case structure, array:
+		return true
+	case iface:
+		return v.t != nil
+	}
+	return false
 }
